@@ -69,12 +69,13 @@ pub fn run(reg: &[Box<dyn TypeOps>], defaults: &[Option<&'static str>], cfg: &Cf
             let largest = *sizes.iter().max().unwrap();
             let total: usize = sizes.iter().sum();
             let max = match rng.below(3) { 0 => largest, 1 => largest + 1, _ => 2 * largest };
-            let send_line = |script: &[Ev], inits: &[D], out: &mut dyn Write| {
+            let send_line_max = |max: usize, script: &[Ev], inits: &[D], out: &mut dyn Write| {
                 write!(out, "{} {} {} {} {} => ", if is_async { "AS" } else { "S" }, tid, max, script_text(script), inits_text(inits)).unwrap();
                 out.flush().unwrap();
                 let r = guarded(|| if is_async { t.aio_send(inits, max, script) } else { t.io_send(inits, max, script) }).unwrap_or_else(|| "PANIC".into());
                 writeln!(out, "{}", r).unwrap();
             };
+            let send_line = |script: &[Ev], inits: &[D], out: &mut dyn Write| send_line_max(max, script, inits, out);
             let recv_line = |script: &[Ev], stream: &[u8], nrecv: usize, out: &mut dyn Write| {
                 write!(out, "{} {} {} {} {} {} => ", if is_async { "AR" } else { "R" }, tid, max, script_text(script), nrecv, hex(stream)).unwrap();
                 out.flush().unwrap();
@@ -96,6 +97,28 @@ pub fn run(reg: &[Box<dyn TypeOps>], defaults: &[Option<&'static str>], cfg: &Cf
                 s.insert(at.min(s.len()), if rng.chance(2, 3) { wfail(&mut rng) } else { Ev::Zero });
                 let s = if is_async { with_pendings(&mut rng, &s, 2) } else { s };
                 send_line(&s, &inits, out);
+            }
+            // messages longer than the declared `max_msg_len` that still fit the buffer of twice that length (S85): every message but
+            // the last is torn by a fault in its second half, after whole-buffer-sized progress, and more sends follow
+            if inits.len() >= 2 {
+                let half = (largest + 1) / 2;
+                for round in 0..2 {
+                    let biggest = (0..inits.len() - 1).max_by_key(|&i| sizes[i]).unwrap();
+                    let victim = if round == 0 { biggest } else { rng.below(inits.len() as u64 - 1) as usize };
+                    let before: usize = sizes[..victim].iter().sum();
+                    let z = sizes[victim];
+                    if z < 2 { continue; }
+                    let done = z / 2 + rng.below((z - z / 2) as u64) as usize; // bytes of the victim written before the fault: z/2 ..= z-1
+                    let mut s = vec![];
+                    if before > 0 { s.extend(composition(&mut rng, before, 9)); }
+                    // the torn message: one or two writes, then the fault
+                    if done > 0 { if rng.chance(1, 2) && done > 1 { let a = 1 + rng.below(done as u64 - 1) as usize; s.push(Ev::N(a)); s.push(Ev::N(done - a)); } else { s.push(Ev::N(done)); } }
+                    s.push(if rng.chance(2, 3) { wfail(&mut rng) } else { Ev::Zero });
+                    s.extend(composition(&mut rng, total - before - done, 9));
+                    let s = if is_async { with_pendings(&mut rng, &s, 3) } else { s };
+                    send_line_max(half, &s, &inits, out);
+                }
+                send_line_max(half, &[], &inits, out);
             }
             if is_async {
                 // flush outcomes: the script entry that follows the last byte of a message is the flush
